@@ -1,7 +1,20 @@
 #!/bin/sh
-# builds runner/runner from the extracted coq/model.ml(i) + driver
+# usage: build.sh <group>  -- builds runner/bin/runner_<group> from coq/model_<group>.ml(i) + driver.ml
+# the entry table (name -> extracted function) is derived from the run_* names in the Extraction command
 set -e
+g="$1"
 cd "$(dirname "$0")"
-cp ../coq/model.ml ../coq/model.mli .
-ocamlfind ocamlopt -O3 -w -a model.mli model.ml entries.ml driver.ml -o runner 2>/dev/null || \
-ocamlfind ocamlopt -w -a model.mli model.ml entries.ml driver.ml -o runner
+mkdir -p build/$g bin
+cp ../coq/model_$g.ml build/$g/model.ml
+cp ../coq/model_$g.mli build/$g/model.mli
+cp driver.ml build/$g/driver.ml
+{
+  echo "let table : (string * (Model.z list -> Model.z list)) list = ["
+  grep '^Extraction "' ../coq/Extraction/Extract_$g.v | grep -o 'run_[A-Za-z0-9_]*' | sort -u | while read f; do
+    echo "  (\"${f#run_}\", Model.$f);"
+  done
+  echo "]"
+} > build/$g/entries.ml
+cd build/$g
+ocamlfind ocamlopt -O3 -w -a model.mli model.ml entries.ml driver.ml -o ../../bin/runner_$g 2>/dev/null || \
+ocamlfind ocamlopt -w -a model.mli model.ml entries.ml driver.ml -o ../../bin/runner_$g
